@@ -43,10 +43,22 @@ func newCipherGeneric(key []byte) (cipher.Block, error) {
 }
 
 func (sm4 *sm4Cipher) Encrypt(dst, src []byte) {
+	if len(src) < BlockSize {
+		panic("sm4: input not full block")
+	}
+	if len(dst) < BlockSize {
+		panic("sm4: output not full block")
+	}
 	cryptoBlock(src[:BlockSize], dst[:BlockSize], &sm4.enc)
 }
 
 func (sm4 *sm4Cipher) Decrypt(dst, src []byte) {
+	if len(src) < BlockSize {
+		panic("sm4: input not full block")
+	}
+	if len(dst) < BlockSize {
+		panic("sm4: output not full block")
+	}
 	cryptoBlock(src[:BlockSize], dst[:BlockSize], &sm4.dec)
 }
 
